@@ -41,6 +41,18 @@ CLAIMED = {
         "6 C07",
         TECH,
     ),
+    "C11": (
+        "Bounded solver-based check of Pipeline.subpipeline(I, S), map(output_names=S) and map(auto_subpipeline=True): on the RUN-T tables every "
+        "candidate (S of size 1..2, I every minimal computable set of provided names - roots, interior, mixed - and each with one member removed) "
+        "is decided against an independent computability/neededness reference: computable requests succeed, contain exactly the needed functions, "
+        "return the composed values for ALL integers and run only needed functions; non-computable ones are rejected. On MAP-T templates "
+        "(T4, T5, T8, T12, T13, T16) listed (S, provided intermediates) choices are mapped and compared element-wise with the denotation, with "
+        "per-function call counts; a missing needed input is rejected before user code. Three recorded findings are pinned to their regions.",
+        "Trusted: z3, CrossHair path exhaustion and builtin models. (S, I) candidates and axis sizes are case-split. Outside: surplus provided names, "
+        "> 5 functions, scopes, parallel maps.",
+        "6 C11",
+        TECH,
+    ),
     "C14": (
         "Bounded solver-based check of the real cache classes (shared=False): every abstract state reachable with <= 3 distinct puts "
         "(all key orders), then one (quick) or two (thorough) operations with symbolic opcode/key/value, observed through the public "
